@@ -19,8 +19,8 @@ open Finset
 
 /-! ### products of numbers in [0,1] -/
 
-/-- |Π u − Π v| ≤ Σ |u − v| for factors in [0,1] -/
-theorem abs_prod_sub_prod_le (m : ℕ) (u v : ℕ → ℚ)
+/-- |Π u − Π v| ≤ Σ |u − v| for factors in [0,1] (any ordered field: used over ℚ for the model and over ℝ for integrands) -/
+theorem abs_prod_sub_prod_le {α : Type*} [Field α] [LinearOrder α] [IsStrictOrderedRing α] (m : ℕ) (u v : ℕ → α)
     (hu : ∀ j, j < m → 0 ≤ u j ∧ u j ≤ 1) (hv : ∀ j, j < m → 0 ≤ v j ∧ v j ≤ 1) :
     |∏ j ∈ range m, u j - ∏ j ∈ range m, v j| ≤ ∑ j ∈ range m, |u j - v j| := by
   induction m with
@@ -78,9 +78,10 @@ theorem betaBinom_eq_prod (P i : ℕ) (hi : i ≤ P) (a b : ℚ) :
   ring
 
 /-- the limit of the j-th ratio -/
-def bbLim (i : ℕ) (y : ℚ) (j : ℕ) : ℚ := if j < i then y else 1 - y
+def bbLim {α : Type*} [One α] [Sub α] (i : ℕ) (y : α) (j : ℕ) : α := if j < i then y else 1 - y
 
-theorem prod_bbLim (P i : ℕ) (hi : i ≤ P) (y : ℚ) : ∏ j ∈ range P, bbLim i y j = y ^ i * (1 - y) ^ (P - i) := by
+theorem prod_bbLim {α : Type*} [CommRing α] (P i : ℕ) (hi : i ≤ P) (y : α) :
+    ∏ j ∈ range P, bbLim i y j = y ^ i * (1 - y) ^ (P - i) := by
   obtain ⟨m, rfl⟩ := Nat.exists_eq_add_of_le hi
   rw [prod_range_add, Nat.add_sub_cancel_left]
   congr 1
@@ -88,6 +89,25 @@ theorem prod_bbLim (P i : ℕ) (hi : i ≤ P) (y : ℚ) : ∏ j ∈ range P, bbL
     simp
   · rw [prod_congr rfl (fun j _ => by simp [bbLim] : ∀ j ∈ range m, bbLim i y (i + j) = 1 - y)]
     simp
+
+/-- y^i (1−y)^(n−i) is n-Lipschitz in y on [0,1] (product of n factors in [0,1]) -/
+theorem abs_monomial_sub_le {α : Type*} [Field α] [LinearOrder α] [IsStrictOrderedRing α] (n i : ℕ) (hi : i ≤ n) (y z : α)
+    (hy0 : 0 ≤ y) (hy1 : y ≤ 1) (hz0 : 0 ≤ z) (hz1 : z ≤ 1) :
+    |y ^ i * (1 - y) ^ (n - i) - z ^ i * (1 - z) ^ (n - i)| ≤ (n : α) * |y - z| := by
+  rw [← prod_bbLim n i hi, ← prod_bbLim n i hi]
+  have h1 := abs_prod_sub_prod_le n (bbLim i y) (bbLim i z)
+    (fun j _ => by unfold bbLim; split_ifs <;> constructor <;> linarith)
+    (fun j _ => by unfold bbLim; split_ifs <;> constructor <;> linarith)
+  refine h1.trans ?_
+  have h2 : ∀ j ∈ range n, |bbLim i y j - bbLim i z j| ≤ |y - z| := by
+    intro j _
+    unfold bbLim
+    split_ifs
+    · exact le_rfl
+    · have : 1 - y - (1 - z) = -(y - z) := by ring
+      rw [this, abs_neg]
+  have h3 := sum_le_card_nsmul (range n) _ _ h2
+  rwa [card_range, nsmul_eq_mul] at h3
 
 theorem bern_eq_prod (P i : ℕ) (hi : i ≤ P) (y : ℚ) : bern P i y = (P.choose i : ℚ) * ∏ j ∈ range P, bbLim i y j := by
   rw [prod_bbLim P i hi, bern, choose_eq]
@@ -189,20 +209,9 @@ theorem bern_le_one (n i : ℕ) (y : ℚ) (hy0 : 0 ≤ y) (hy1 : y ≤ 1) : bern
 /-- the binomial probability is Lipschitz in the frequency on [0,1] (constant C(n,i)·n; crude but explicit) -/
 theorem bern_sub_bern (n i : ℕ) (hi : i ≤ n) (y z : ℚ) (hy0 : 0 ≤ y) (hy1 : y ≤ 1) (hz0 : 0 ≤ z) (hz1 : z ≤ 1) :
     |bern n i y - bern n i z| ≤ (n.choose i : ℚ) * n * |y - z| := by
-  rw [bern_eq_prod n i hi, bern_eq_prod n i hi, ← mul_sub, abs_mul, abs_of_nonneg (Nat.cast_nonneg _), mul_assoc]
-  refine mul_le_mul_of_nonneg_left ?_ (Nat.cast_nonneg _)
-  have h1 := abs_prod_sub_prod_le n (bbLim i y) (bbLim i z)
-    (fun j _ => by unfold bbLim; split_ifs <;> constructor <;> linarith)
-    (fun j _ => by unfold bbLim; split_ifs <;> constructor <;> linarith)
-  refine h1.trans ?_
-  have h2 : ∀ j ∈ range n, |bbLim i y j - bbLim i z j| ≤ |y - z| := by
-    intro j _
-    unfold bbLim
-    split_ifs
-    · exact le_rfl
-    · have : 1 - y - (1 - z) = -(y - z) := by ring
-      rw [this, abs_neg]
-  have h3 := sum_le_card_nsmul (range n) _ _ h2
-  rwa [card_range, nsmul_eq_mul] at h3
+  have e : ∀ t : ℚ, bern n i t = (n.choose i : ℚ) * (t ^ i * (1 - t) ^ (n - i)) := fun t => by
+    rw [bern, choose_eq]; ring
+  rw [e, e, ← mul_sub, abs_mul, abs_of_nonneg (Nat.cast_nonneg _), mul_assoc]
+  exact mul_le_mul_of_nonneg_left (abs_monomial_sub_le n i hi y z hy0 hy1 hz0 hz1) (Nat.cast_nonneg _)
 
 end DadiVerif.FromPhi
